@@ -60,6 +60,12 @@ P = {
     "C18": (True, EX, "4/C18", "exhaustive configuration grid (T=2..16 x modes x seeds x chunk patterns), behavioural oracle on ciphertext relations, violations keyed by cause",
             "For every T=2..16, non-ECB mode, five seeds and two chunk patterns the written file is inspected: IV fields distinct and seed dependent, and no two streams may start from the same value (equal chunks -> different ciphertext; CTR/OFB keystream not reused). The pinned format starts every stream from IV[0]: reported as the recorded known finding, any other cause is a violation.",
             "known finding stream-start-iv:shared-with-stream-0 (format-level, not repairable without changing what C02 fixes)"),
+    "C15": (True, MC, "4/C15", "explicit-state enumeration of all operation histories up to depth 3/4 over a 16-operation alphabet, each history in a fresh process, differential oracle against the same operation alone; canonical process state recorded after every step",
+            "All sequences of up to 3 (thorough 4) operations drawn from 9 library-level and 7 command-line operations (successful and failing ones, T=1/2/4/16) run inside one process; each operation must observe exactly what it observes alone in a fresh process. The canonical process-wide state (live-buffer counter, singleton, thread count) after every step is recorded; one distinct state means every operation restores the initial state.",
+            "depth bound; the hidden getopt cursor is not part of the canonical state, so for command-line histories the claim is the depth bound plus the differential oracle"),
+    "C17": (True, EX, "4/C17", "exhaustive enumeration of option vectors (single deviations, all pairs; thorough: full product of interacting dimensions) against the real ASan-built binary, effect confirmed by the reference",
+            "The real executable is run on every vector of the grid; no crash/sanitizer report may occur, exit status 0 must coincide with the effect being there (written file equals the documented format and decrypts to the input / plaintext restored / tag valid per the reference), and documented-invalid command lines must exit non-zero with a diagnostic.",
+            "value classes per option (12x8x3x8x11x6x2x3); interactive mode excluded; production chunk size"),
 }
 PENDING = {}
 
